@@ -601,6 +601,16 @@ func (s *c12Scn) shape() string {
 	return "single-command"
 }
 
+// c12Guard turns a panic of the code under test into a finding instead of a dead shard.
+func c12Guard(f func() *c12Fail) (out *c12Fail) {
+	defer func() {
+		if r := recover(); r != nil {
+			out = &c12Fail{"the code under test panics on a well-formed command", "panic", map[string]interface{}{"panic": fmt.Sprint(r)}}
+		}
+	}()
+	return f()
+}
+
 func c12Result(s *c12Scn, f *c12Fail) mc.Result {
 	sig := "C12:" + s.Path + ":" + f.kind
 	if (s.Path == "decode" && (f.kind == "offset" || f.kind == "error" || f.kind == "phantom")) || s.Count > 0 {
@@ -620,7 +630,7 @@ func c12RunDecode(s c12Scn, pairs bool) (mc.Result, *c12Scn, int) {
 	one := func(frag string, cuts []int, o *[]string) *mc.Result {
 		runs++
 		fr := &fragReader{data: data, cuts: cuts, oneByte: frag == "1byte"}
-		if f := c12DecodeRun(data, cmds, ends, s.Buf, fr, o); f != nil {
+		if f := c12Guard(func() *c12Fail { return c12DecodeRun(data, cmds, ends, s.Buf, fr, o) }); f != nil {
 			v := s
 			v.Frag, v.Cuts = frag, cuts
 			f.detail["stream_len"] = len(data)
@@ -676,9 +686,9 @@ func c12RunEncode(s c12Scn) mc.Result {
 	cmds := s.commands()
 	var f *c12Fail
 	if s.Path == "encode-resp" {
-		f = c12EncodeResp(cmds, s.Buf, s.RBuf)
+		f = c12Guard(func() *c12Fail { return c12EncodeResp(cmds, s.Buf, s.RBuf) })
 	} else {
-		f = c12EncodeWriter(cmds, s.Buf, s.RBuf)
+		f = c12Guard(func() *c12Fail { return c12EncodeWriter(cmds, s.Buf, s.RBuf) })
 	}
 	if f != nil {
 		return c12Result(&s, f)
